@@ -98,6 +98,11 @@ def check_impute(cfgdesc, imputer, model, log, storage, strategy, subset_names, 
     for inp in inputs:
         if set(inp.keys()) != set(x_before.keys()) | S:
             bad('input-keys', f"model input {inp} must carry the instance's features and the requested subset {sorted(S)}")
+        order = [k for k in inp.keys() if k in x_before]
+        if order != list(x_before.keys()):
+            # a model may read the features positionally (the library's own SklearnWrapper / TorchWrapper do so when no
+            # feature names are given): the instance's key order must survive the imputation
+            bad('key-order', f"model input {inp} does not keep the key order of the instance {list(x_before.keys())}")
         for name in NAMES:
             if name not in S and not (inp[name] == x_before[name]):
                 bad('outside-subset-changed', f"model input {inp} differs from the instance in {name!r}, which is not "
@@ -170,6 +175,7 @@ def plan(tier):
                 tasks.append(('B', dict(storage=skind, size=size, strategy=strategy,
                                         L=(L - 1 if skind == 'Uniform' else L), pool=4 if deep else 3,
                                         prefill=True)))
+    tasks.append(('D', dict(kind='default-edit')))
     tasks.sort(key=lambda t: 0 if t[0] == 'B' else 1)
     return tasks
 
@@ -197,6 +203,39 @@ def driver_a(cfg):
 
 def desc(cfg):
     return ', '.join(f"{k}={v}" for k, v in cfg.items())
+
+
+def default_edit_check():
+    """DefaultImputer: impute(S); the configured defaults are changed (in place and by re-assignment); impute(S) again -
+    the model must see the CURRENT defaults."""
+    from ixai.imputer import DefaultImputer
+    n = 0
+    for how in ('in-place', 'reassign'):      # through the imputer's own public attribute only
+        for S in (['a'], ['a', 'b'], ['c', 'a']):
+            log = EventLog()
+            model = Model(NAMES, 'scalar', None, log)
+            given = dict(DEFAULTS)
+            imp = DefaultImputer(model, values=given)
+            imp.impute(feature_subset=list(S), x_i=dict(X), n_samples=1)
+            new = {k: v + 1000 for k, v in DEFAULTS.items()}
+            if how == 'in-place':
+                for k, v in new.items():
+                    imp.values[k] = v
+            elif how == 'constructor-dict':
+                given.update(new)
+            else:
+                imp.values = dict(new)
+            mark = log.mark()
+            imp.impute(feature_subset=set(S), x_i=dict(X), n_samples=2)
+            n += 1
+            for e in log.since(mark):
+                if e[0] == 'model':
+                    for f in S:
+                        if not (e[1][f] == new[f]):
+                            raise Violation(f"{PID}/stale-default", f"DefaultImputer: after the defaults were changed "
+                                            f"({how}) to {new}, impute({S}) evaluated the model on {e[1]} (feature {f!r} is not "
+                                            f"the configured default)", {})
+    return n
 
 
 # ------------------------------------------------------------------------------------------ driver B
@@ -238,7 +277,7 @@ def grid_for(cfg):
 
 def split(task):
     part, cfg = task
-    if part == 'A':
+    if part in ('A', 'D'):
         return [(part, cfg, ())]
     g = grid_for(cfg)
     return [(part, cfg, r) for r in choice.frontier(driver_b(cfg), 2 + (cfg['size'] or 1) * 0, lambda i: g)]
@@ -246,6 +285,12 @@ def split(task):
 
 def run_task(task):
     part, cfg, root = task
+    if part == 'D':
+        try:
+            n = default_edit_check()
+            return dict(task=(part, cfg), executions=n, violations=[], used=set(), cases=n, unscripted=0)
+        except Violation as v:
+            return dict(task=(part, cfg), executions=1, violations=[(v.key, v.what, {}, ())], used=set(), cases=0, unscripted=0)
     used, cases = set(), set()
 
     def on_leaf(run, res):
@@ -306,6 +351,13 @@ def main(rep):
 def replay(data):
     r = data['replay']
     part, cfg = r['task']
+    if part == 'D':
+        res = run_task((part, cfg, ()))
+        if res['violations']:
+            print(f"VIOLATION property={PID} replay=(reproduced)\n  {res['violations'][0][1]}")
+            return 1
+        print('replay: no violation on the current tree')
+        return 0
     drv = driver_a(cfg) if part == 'A' else driver_b(cfg)
     g = grid_for(cfg)
     run, res, viol = choice.execute(drv, tuple(r['prefix']), lambda i: g)
